@@ -507,10 +507,18 @@ def stream_files(run: Run, fasta, batch: Batch, n):
 def guarded(run, what, fn, *args):
     """an exception escaping the real code inside a stream is a failure of the property on the
     last input that stream built (the stream's remaining cases are lost, the other streams run)"""
+    from ..common import time_limit, CallTimeout
+    if getattr(run, "timed_out", False):
+        return          # an earlier stream did not finish: the remaining ones would not either
     try:
-        fn(*args)
+        with time_limit(90 if run.tier == "quick" else 1500):
+            fn(*args)
     except InfraError:
         raise
+    except CallTimeout as ex:
+        run.timed_out = True
+        run.violation("the %s stream does not finish (%s): the cost of building sequences grows without bound"
+                      % (what, ex), dict(stream=what, last_input=getattr(run, "last_input", None)), clause="raises")
     except Exception as ex:  # noqa
         import traceback
         tb = traceback.extract_tb(ex.__traceback__)
